@@ -163,6 +163,34 @@ func (e *Engine) evCall(c *ast.CallExpr, st *State) []Value {
 			if e.isSpecHelper(id) {
 				return []Value{e.evQuant(id.Name, c, st)}
 			}
+		case "ncalls", "lastret":
+			if e.isSpecHelper(id) {
+				aid, ok := unparen(c.Args[0]).(*ast.Ident)
+				if !ok {
+					e.fail(c.Pos(), "%s needs a function-typed variable", id.Name)
+				}
+				obj := e.pk.Info.ObjectOf(aid)
+				k := e.ghostKey(id.Name, obj)
+				v, ok := st.vars[k]
+				if !ok {
+					e.fail(c.Pos(), "%s(%s): not a function-typed parameter of the unit", id.Name, aid.Name)
+				}
+				return []Value{v}
+			}
+		case "rangeIndex":
+			if e.isSpecHelper(id) {
+				tv := e.pk.Info.Types[c.Args[0]]
+				n := 0
+				if tv.Value != nil {
+					fmt.Sscan(tv.Value.ExactString(), &n)
+				}
+				for k, v := range st.vars {
+					if sk, ok := k.(*synth); ok && sk.name == fmt.Sprintf("rangeidx%d", n) {
+						return []Value{v}
+					}
+				}
+				e.fail(c.Pos(), "rangeIndex(%d): loop not active", n)
+			}
 		}
 	}
 	if ix, ok := fun.(*ast.IndexExpr); ok {
@@ -197,6 +225,10 @@ func (e *Engine) evCall(c *ast.CallExpr, st *State) []Value {
 		if res, ok := e.ifaceStub(c, se, *recv, args, sig, st); ok {
 			return res
 		}
+		if e.spec > 0 || e.pureMethod(se.Sel.Name) {
+			e.stubsUsed["interface method "+se.Sel.Name+": deterministic function of receiver and arguments with no effect on tracked memory (declared by `opt puremethods`, or used inside a specification)"] = true
+			return e.pureUF("ifc."+se.Sel.Name, sig, recv, args, st)
+		}
 		e.abstract("interface method call "+exprStr(c.Fun)+" (results and heap havocked)", c.Pos())
 		e.havocAll(st)
 		return e.havocResults(st, sig, "ifc_"+se.Sel.Name)
@@ -216,7 +248,40 @@ func (e *Engine) evCall(c *ast.CallExpr, st *State) []Value {
 	}
 	e.abstract("call through function value "+exprStr(c.Fun)+" (results and heap havocked)", c.Pos())
 	e.havocAll(st)
-	return e.havocResults(st, sig, "fv")
+	res := e.havocResults(st, sig, "fv")
+	if id, ok := fun.(*ast.Ident); ok {
+		obj := e.pk.Info.ObjectOf(id)
+		nk := e.ghostKey("ncalls", obj)
+		if n, ok := st.vars[nk]; ok {
+			st.vars[nk] = Value{e.add(n.T, e.ilit("1")), n.Typ}
+			if len(res) > 0 {
+				st.vars[e.ghostKey("lastret", obj)] = res[0]
+			}
+		}
+	}
+	return res
+}
+
+func (e *Engine) pureMethod(name string) bool {
+	if e.c == nil {
+		return false
+	}
+	for _, m := range strings.Fields(e.c.Opts["puremethods"]) {
+		if m == name {
+			return true
+		}
+	}
+	return false
+}
+
+func (e *Engine) ghostKey(kind string, obj types.Object) *synth {
+	k := kind + ":" + keyName(obj)
+	if s, ok := e.ghosts[k]; ok {
+		return s
+	}
+	s := &synth{k}
+	e.ghosts[k] = s
+	return s
 }
 
 func (e *Engine) isSpecHelper(id *ast.Ident) bool {
